@@ -85,6 +85,9 @@ func runMutant(id, patch string) (failed []string, errs []string, err error) {
 	for _, r := range ld.staticScans(id) {
 		all = append(all, r.Obls...)
 	}
+	for _, r := range ld.missingObligations(id) {
+		all = append(all, r.Obls...)
+	}
 	work := filepath.Join(verifDir, ".work", id+"-mutant")
 	os.RemoveAll(work)
 	defer os.RemoveAll(work)
